@@ -162,7 +162,20 @@ def run_stream(job):
     if hp is not None:
         herr = hp.stderr.read().decode(errors="replace")[-2000:]
         hrc = hp.wait()
-    res = dict(label=job["label"], D=[], S=[], B=[], tags={}, N={}, hrc=hrc, herr=herr, wall=time.time() - t0, first=[])
+    res = dict(label=job["label"], D=[], S=[], B=[], tags={}, N={}, hrc=hrc, herr=herr, wall=time.time() - t0, first=[], marker="")
+    if hp is not None and hrc != 0:
+        # crash / sanitizer abort: run the harness again with operation markers to name the operands
+        env2 = dict(env); env2["UV_MARK"] = "1"
+        try:
+            mp = subprocess.Popen([job["exe"]] + job["args"], stdout=subprocess.PIPE, stderr=subprocess.DEVNULL, env=env2, text=True)
+            last = ""
+            for ln in mp.stdout:
+                if ln.startswith("# at "):
+                    last = ln.strip()
+            mp.wait()
+            res["marker"] = last
+        except Exception as e:  # noqa
+            res["marker"] = f"(marker run failed: {e})"
     for l in out.splitlines():
         if l.startswith("D "):
             res["D"].append(l)
@@ -170,6 +183,8 @@ def run_stream(job):
             res["S"].append(l)
         elif l.startswith("B "):
             res["B"].append(l)
+        elif l.startswith("K "):
+            res.setdefault("K", []).append(l)
         elif l.startswith("T "):
             _, t, c = l.rsplit(" ", 2)[0].split(" ", 1)[0], l.split(" ")[1], l.split(" ")[-1]
             res["tags"][t] = res["tags"].get(t, 0) + int(c)
@@ -255,7 +270,7 @@ def main():
         return 1
 
     # 3. harness
-    names = cfg["harness"]
+    names = cfg["harness"] + (cfg.get("thorough_harness", []) if tier == "thorough" else [])
     sanitize = tier == "thorough" and cfg.get("sanitize", False)
     exes = {}
     with cf.ThreadPoolExecutor(max_workers=NCPU) as ex:
@@ -305,6 +320,10 @@ def main():
     crashed = [r for r in results if r["hrc"] != 0]
     known = [k for k in load_known() if k["property"] == prop and k.get("status") == "known"]
     known_classes = {k["class"]: k for k in known}
+    K = [x for r in results for x in r.get("K", [])]
+    if cfg.get("judge") == "clean":
+        # C20: value correctness is judged by the other properties; here only crashes and non-canonical outputs count
+        S = ["S 0 class=- noncanonical " + k[2:] for k in K]
     S_known, S_new = [], []
     for s in S:
         (S_known if cls_of(s) in known_classes else S_new).append(s)
@@ -317,6 +336,8 @@ def main():
             cls_totals[c] = cls_totals.get(c, 0) + k
     n_known = sum(k for c, k in cls_totals.items() if c in known_classes)
     n_new = sum(k for c, k in cls_totals.items() if c not in known_classes)
+    if cfg.get("judge") == "clean":
+        n_known, n_new = 0, len(K)
     n_diff = sum(r["N"].get("diff", 0) for r in results)
     for c, k in known_classes.items():
         if c in seen_known:
@@ -340,7 +361,9 @@ def main():
         elif crashed:
             fh.write(f"# property {prop}: harness terminated abnormally (crash / sanitizer abort)\n")
             for r in crashed:
-                fh.write(f"# stream {r['label']} exit={r['hrc']}\n# " + r["herr"].replace("\n", "\n# ") + "\n")
+                fh.write(f"# stream {r['label']} exit={r['hrc']}\n")
+                fh.write(f"# last operation announced before the abort: {r.get('marker', '')}\n")
+                fh.write("# " + r["herr"].replace("\n", "\n# ") + "\n")
             rc = 1
             print(f"VIOLATION property={prop} replay={replay_rel}" + ("" if cfg.get("crash_is_violation") else " no-failing-input-found"))
         elif D or B:
